@@ -7,24 +7,28 @@ use rand::{Rng, SeedableRng};
 pub struct Replay {
     pub sched: Vec<usize>,
     pub pos: usize,
-    pub skipped: usize,
+    pub skipped: std::sync::Arc<std::sync::atomic::AtomicUsize>,
 }
 
 impl Replay {
     pub fn new(sched: Vec<usize>) -> Replay {
-        Replay { sched, pos: 0, skipped: 0 }
+        Replay { sched, pos: 0, skipped: Default::default() }
     }
 }
 
 impl Source for Replay {
     fn pick(&mut self, v: &View) -> usize {
+        if v.nthreads <= 2 {
+            // sequential phase (setup / final): nothing to choose, nothing consumed
+            return v.enabled[0];
+        }
         while self.pos < self.sched.len() {
             let c = self.sched[self.pos];
             self.pos += 1;
             if v.enabled.contains(&c) {
                 return c;
             }
-            self.skipped += 1;
+            self.skipped.fetch_add(1, std::sync::atomic::Ordering::Relaxed);
         }
         default_pick(v)
     }
@@ -174,7 +178,7 @@ impl Dfs {
         for s in steps.iter().skip(have) {
             let mut alts = Vec::new();
             for &t in &s.enabled {
-                if t != s.chosen && pre + cost(s.cont, t) <= self.bound {
+                if t != s.chosen && Some(t) != s.spin && pre + cost(s.cont, t) <= self.bound {
                     alts.push(t);
                 }
             }
